@@ -211,6 +211,12 @@ fn bit_case(neg: bool, a: &[u64], i: u64, val: bool) -> Verdict {
         if t.bit(i) != val {
             return Err(format!("BigInt: bit({}) after set_bit({}, {}) reads {}", i, i, val, t.bit(i)));
         }
+    } else if val && r.neg {
+        // a far bit of a negative value is already 1 in the two's-complement expansion: setting it is a no-op
+        if !r.bit(i) {
+            crate::refint::oracle_error("model: far bit of a negative value is not set");
+        }
+        ctx(must_return("BigInt::set_bit far set", || { let mut t = x.clone(); t.set_bit(i, true); t }).and_then(|t| eq_bi(&t, &r)), "BigInt::set_bit(far, true) on a negative value")?;
     } else if !val {
         // clearing a far bit of a non-negative value is a no-op that needs no memory
         if !r.neg {
@@ -300,7 +306,14 @@ impl Property for C07 {
         prop_oneof![
             35 => (any::<bool>(), bit_nat(ml), any::<bool>(), bit_nat(ml)).prop_map(|(sa, a, sb, b)| Case::new("bitop.i", vec![Arg::Z(sa, a), Arg::Z(sb, b)])),
             8 => (bit_nat(ml), bit_nat(ml)).prop_map(|(a, b)| Case::new("bitop.u", vec![Arg::N(a), Arg::N(b)])),
-            20 => (any::<bool>(), bit_nat(ml), amount()).prop_map(|(s, a, (k, ku))| Case::new("shift.i", vec![Arg::Z(s, a), Arg::I(k), Arg::U(ku)])),
+            14 => (any::<bool>(), bit_nat(ml), amount()).prop_map(|(s, a, (k, ku))| Case::new("shift.i", vec![Arg::Z(s, a), Arg::I(k), Arg::U(ku)])),
+            // amounts relative to the value: around its bit length, its digit count and its trailing-zero count
+            6 => (any::<bool>(), bit_nat(ml), 0u8..12, 0i128..3).prop_map(|(s, a, sel, d)| {
+                let n = Nat::from_u64_digits(&a);
+                let (bits, tz, len) = (n.bits() as i128, n.trailing_zeros().unwrap_or(0) as i128, n.to_u64_digits().len() as i128);
+                let k = match sel { 0 => bits - 1 + d, 1 => bits - 2 + d, 2 => tz - 1 + d, 3 => tz + d, 4 => len * 64 - 1 + d, 5 => (len - 1) * 64 - 1 + d, 6 => bits + 63 + d, 7 => tz + 63 + d, 8 => bits / 2 + d, 9 => (tz / 64) * 64 + d, 10 => bits - 64 + d, _ => bits + d };
+                Case::new("shift.i", vec![Arg::Z(s, a), Arg::I(k.max(0)), Arg::U(0)])
+            }),
             8 => (bit_nat(ml), amount()).prop_map(|(a, (k, ku))| Case::new("shift.u", vec![Arg::N(a), Arg::I(k), Arg::U(ku)])),
             29 => (prop_oneof![65 => Just(true), 35 => Just(false)], bit_nat(ml), any::<u8>(), any::<u64>(), any::<u64>(), any::<bool>()).prop_map(|(s, a, sel, off, far, v)| {
                 let i = bit_index(&a, sel, off, far);
